@@ -79,6 +79,22 @@ def gen_gene(rng, lo, hi, idx, seqname, single_isoform):
             if v.get("protein_id"):
                 v["protein_id"] += "v"
             txs.insert(k + rng.choice([0, 1]), v)
+    if coding and single_isoform and rng.random() < 0.2:
+        # an isoform with the SAME exon chain and a CDS that ends one codon earlier (alternative stop): the one multi-isoform
+        # shape the grouping heuristics of every parser mode handle (shared exon chain), so it stays in the conditioned family
+        v = copy.deepcopy(txs[0])
+        if strand == "PLUS" and v["cds_ends"][-1] - v["cds_starts"][-1] > 3:
+            v["cds_ends"][-1] -= 3
+        elif strand == "MINUS" and v["cds_ends"][0] - v["cds_starts"][0] > 3:
+            v["cds_starts"][0] += 3
+        else:
+            v = None
+        if v is not None:
+            f0 = {"ZERO": 0, "ONE": 1, "TWO": 2}[v["cds_frames"][0 if strand == "PLUS" else -1]]
+            if specs.blocks_len(v["cds_starts"], v["cds_ends"]) - f0 >= 3:
+                v["transcript_id"] += "s"
+                v["protein_id"] = rng.choice([None, v.get("protein_id"), (v.get("protein_id") or "prot") + "s"])
+                txs.append(v)
     gtype = "protein_coding" if coding else rng.choice(NONCODING)
     for t in txs:
         if not coding:
@@ -542,6 +558,16 @@ def check_biopython(case, imp):
                 bad(f"{label}_identifiers", f"wanted {quals_need}")
             return None
 
+        def same_extract(f, blocks, strand_name, label):
+            """independent extraction of a multi-part record: the source bases of the blocks joined 5'->3'"""
+            if f is None:
+                return
+            src = "".join(genome[s:e] for s, e in sorted(blocks))
+            if strand_name == "MINUS":
+                src = specs.revcomp(src)
+            if f["extract"].upper() != src.upper():
+                bad(f"{label}_extract_order", f"strand {strand_name} blocks {len(blocks)} parts as written {[p[:2] for p in f['parts']][:4]}")
+
         def same_quals(f, want, label):
             if f is None:
                 return
@@ -567,6 +593,7 @@ def check_biopython(case, imp):
                 if not (coding_feature and case["flavor"] == "PROKARYOTIC"):
                     f = take(ftype, exons, strand, need, "transcript")
                     same_quals(f, expected_record_qualifiers("transcript", t, symbol, locus), "transcript")
+                    same_extract(f, exons, g["transcripts"][0]["strand"], "transcript")
                     if f is not None and "protein_id" in f["quals"]:
                         bad("protein_id_on_transcript_record")
                 if coding_feature:
@@ -611,9 +638,10 @@ def check_biopython(case, imp):
             same_quals(take("misc_feature", [(lo, hi)], strand, {"misc_feature": symbol}, "feature_collection"),
                        expected_record_qualifiers("feature_collection", c, symbol, c.get("locus_tag") or symbol), "feature_collection")
             for f_ in c["feature_intervals"]:
-                same_quals(take("feat_interval", list(zip(f_["interval_starts"], f_["interval_ends"])), strand,
-                                {"feature_name": f_.get("feature_name"), "feature_id": f_.get("feature_id")}, "feature"),
-                           expected_record_qualifiers("feature", f_, symbol, None, container=c), "feature")
+                fr = take("feat_interval", list(zip(f_["interval_starts"], f_["interval_ends"])), strand,
+                          {"feature_name": f_.get("feature_name"), "feature_id": f_.get("feature_id")}, "feature")
+                same_quals(fr, expected_record_qualifiers("feature", f_, symbol, None, container=c), "feature")
+                same_extract(fr, list(zip(f_["interval_starts"], f_["interval_ends"])), c["feature_intervals"][0]["strand"], "feature")
         extra = [f["type"] for i, f in enumerate(feats) if i not in used]
         if extra:
             bad("extra_records", extra[:6])
@@ -710,7 +738,8 @@ def check_reparse(case, imp):
                 if len(a["transcripts"]) != len(b["transcripts"]):
                     bad("reparse", "transcript_count", f"{len(a['transcripts'])} != {len(b['transcripts'])}", mode=mode)
                     continue
-                for ta, tb in zip(a["transcripts"], b["transcripts"]):
+                skey = lambda t: json.dumps([t["cds"], t["exons"], t["start_frame"], t["protein_id"]], default=str)  # noqa: E731
+                for ta, tb in zip(sorted(a["transcripts"], key=skey), sorted(b["transcripts"], key=skey)):
                     for key in ("exons", "cds", "strand", "start_frame", "protein_id"):
                         if ta[key] != tb[key]:
                             what = {"exons": "transcript_structure" if case["flavor"] == "EUKARYOTIC" or tb["cds"] is None else "cds_derived_structure",
